@@ -514,7 +514,10 @@ static ares_status_t ares_sysconfig_apply(ares_channel_t         *channel,
 {
   ares_status_t status;
 
-  if (sysconfig->sconfig && !(channel->optmask & ARES_OPT_SERVERS)) {
+  /* The list may exist but be empty if every entry read was silently ignored,
+   * that must not be taken as a request to remove all servers. */
+  if (sysconfig->sconfig && ares_llist_len(sysconfig->sconfig) > 0 &&
+      !(channel->optmask & ARES_OPT_SERVERS)) {
     status = ares_servers_update(channel, sysconfig->sconfig, ARES_FALSE);
     if (status != ARES_SUCCESS) {
       return status;
